@@ -9,14 +9,14 @@ from vf.gen import fixed as G
 RULE = ("cases = (configuration from the fixed-point option lattice) x (tensor); "
         "deterministic part: every configuration with its full breakpoint walk "
         "(all codes and all rounding breakpoints +-2 ulp, saturation edges, "
-        "zeros, denormals, magnitudes up to 2^22 steps); random part: Hypothesis "
+        "zeros, denormals, magnitudes up to the 2^24-step bound); random part: Hypothesis "
         "tensors of rank 0..4. Non-trivial = tensor has at least one saturated "
         "element and one element strictly between two codes; distinct by hash "
         "of (config, tensor).")
 ASSUMPTIONS = [
     "checks run under TF_USE_LEGACY_KERAS=1 (tf_keras), float32, eager",
     "float32 values are compared exactly in float64 (power-of-two units, exact)",
-    "inputs generated with |x| < 2^22 steps (inside the property's 2^24 bound)",
+    "inputs generated with |x| < 2^24 steps of the finer of the input/output grids (the property's bound)",
     "constant alpha restricted to powers of two (codes*alpha exact in float32)",
     "quantized_relu(use_sigmoid=1) outputs within 2 ulp of a code are bucketed "
     "as ste_ulp_noise, further away as wrong_code",
@@ -182,7 +182,7 @@ def run(ctx):
   for cfg in ctx.shard(cfgs):
     m = G.model(cfg)
     full = (m["kmax"] - m["kmin"]) <= 70000
-    xs = G.walk(cfg, m, full=True)
+    xs = G.walk(cfg, m, full=full)
     st = {}
     fails = oracle(cfg, xs, full_walk=full, stats=st)
     labs = ["walk", cfg["cls"], cfg["cls"] + ":" + variant(cfg)]
@@ -215,8 +215,10 @@ def run(ctx):
 def replay(ctx, case):
   cfg = case["cfg"]
   if case.get("walk"):
-    xs = G.walk(cfg)
-    fails = oracle(cfg, xs, full_walk=True)
+    m = G.model(cfg)
+    full = (m["kmax"] - m["kmin"]) <= 70000
+    xs = G.walk(cfg, m, full=full)
+    fails = oracle(cfg, xs, full_walk=full)
   else:
     fails = oracle(cfg, case["xs"], shape=case.get("shape"))
   ctx.tick(case, labels=["replay"])
